@@ -34,7 +34,7 @@ FLOORS = {"quick": {"demux_packets": 8000, "fib_empty_table_cases": 150, "defaul
                        "hub_with_ports": 4000, "hub_without_ports": 4000, "splitter_packets": 16000, "fattree_built": 6000,
                        "fib_walks": 160000, "reverse_walks": 40000, "e2e_packets": 160000, "e2e_hops": 1000000,
                        "e2e_shared_class_runs": 2000, "e2e_SP": 600, "e2e_WFQ": 600, "e2e_DRR": 600, "e2e_VirtualClock": 600}}
-KEYS = tuple(FLOORS["quick"].keys())
+KEYS = tuple(FLOORS["quick"].keys()) + ("demux_reconfigurations",)
 
 
 def plan(tier):
@@ -98,39 +98,71 @@ def demux_case(rng, stats, bad):
     else:
         for f in rng.sample(range(8), rng.randint(1, 6)):
             fib[f] = rng.randrange(0, n + 2)          # may be out of range
-    d = FIBDemux(outs=outs, ends=dict(ends) if (ends or rng.random() < 0.5) else None, fib=dict(fib), default_out=default)
-    devs = outs + list(ends.values()) + ([default] if default else [])
-    for f in range(0, 9):
-        p = mkpkt(f, pid=f)
-        before = {id(o): len(o.got) for o in devs}
-        try:
-            with vnet_quiet():
-                d.put(p)
-        except Exception as e:
-            bad(f"exception:{type(e).__name__}@FIBDemux.put" + ("[empty-table]" if not fib else ""), "FIBDemux.put raised",
-                {"flow": f, "fib": fib, "ends": sorted(ends), "exc": repr(e)[:100]})
-            return nt
-        stats["demux_packets"] += 1
-        if f in ends:
-            want = ends[f]
-            stats["ends_used"] += 1
-        elif f in fib and fib[f] < n:
-            want = outs[fib[f]]
+    tbl = dict(fib)
+    d = FIBDemux(outs=outs, ends=dict(ends) if (ends or rng.random() < 0.5) else None, fib=tbl, default_out=default)
+    ends = d.ends                      # the live, public map (reconfigured in place below)
+    phases = rng.randint(1, 3)
+    pid = 0
+    for phase in range(phases):
+        if phase > 0:
+            # reconfigure the live demux through its public attributes, then route again
+            stats["demux_reconfigurations"] += 1
+            for _ in range(rng.randint(1, 4)):
+                r = rng.random()
+                f = rng.randrange(9)
+                if r < 0.3:
+                    ends[f] = Dev(f"end{f}.{phase}")
+                elif r < 0.45 and ends:
+                    del ends[rng.choice(sorted(ends))]
+                elif r < 0.65:
+                    tbl[f] = rng.randrange(0, n + 2)
+                elif r < 0.75 and tbl:
+                    del tbl[rng.choice(sorted(tbl))]
+                elif r < 0.85:
+                    tbl = {g: rng.randrange(0, n + 1) for g in rng.sample(range(9), rng.randint(0, 5))}
+                    d.fib = tbl
+                elif r < 0.93:
+                    outs[rng.randrange(n)] = Dev(f"o.{phase}")
+                else:
+                    default = Dev(f"default.{phase}") if rng.random() < 0.7 else None
+                    d.default_out = default
+            fib = tbl
         else:
-            want = default
-            nt = True
-            if f in fib:
-                stats["out_of_range_port"] += 1
-            stats["default_out_used" if default else "nowhere"] += 1
-        holders = [o for o in devs if len(o.got) > before[id(o)]]
-        if any(o.got[-1] is not p for o in holders):
-            bad("fibdemux-different-object", "FIBDemux forwarded something other than the very same packet", f)
-            return nt
-        if (want is None and holders) or (want is not None and holders != [want]):
-            bad("fibdemux-wrong-output", "FIBDemux did not hand the packet to its end device / table output / default output",
-                {"flow": f, "fib": fib, "ends": sorted(ends), "nouts": n, "default": default is not None,
-                 "got": [h.element_id for h in holders], "want": want.element_id if want else None})
-            return nt
+            fib = tbl
+        devs = list(outs) + list(ends.values()) + ([default] if default else [])
+        for f in range(0, 9):
+            pid += 1
+            p = mkpkt(f, pid=pid)
+            before = {id(o): len(o.got) for o in devs}
+            try:
+                with vnet_quiet():
+                    d.put(p)
+            except Exception as e:
+                bad(f"exception:{type(e).__name__}@FIBDemux.put" + ("[empty-table]" if not fib else ""), "FIBDemux.put raised",
+                    {"flow": f, "fib": fib, "ends": sorted(ends), "exc": repr(e)[:100]})
+                return nt
+            stats["demux_packets"] += 1
+            if f in ends:
+                want = ends[f]
+                stats["ends_used"] += 1
+            elif f in fib and fib[f] < n:
+                want = outs[fib[f]]
+            else:
+                want = default
+                nt = True
+                if f in fib:
+                    stats["out_of_range_port"] += 1
+                stats["default_out_used" if default else "nowhere"] += 1
+            holders = [o for o in devs if len(o.got) > before[id(o)]]
+            if any(o.got[-1] is not p for o in holders):
+                bad("fibdemux-different-object", "FIBDemux forwarded something other than the very same packet", f)
+                return nt
+            if (want is None and holders) or (want is not None and holders != [want]):
+                bad("fibdemux-wrong-output" + ("[after-reconfiguration]" if phase else ""),
+                    "FIBDemux did not hand the packet to its end device / table output / default output",
+                    {"flow": f, "fib": fib, "ends": sorted(ends), "nouts": n, "default": default is not None, "phase": phase,
+                     "got": [h.element_id for h in holders], "want": want.element_id if want else None})
+                return nt
     return nt
 
 
